@@ -40,6 +40,8 @@ UNITS = [
          bound="all ASCII strings of length 3"),
     dict(unit="K03.split_nonascii_short_eq_value", harness="k03_split_nonascii_short_eq_value", tags=["C02"], quick=True, complete=False,
          bound="`-ñ=v`, v any single byte"),
+    dict(unit="K03.split_4byte_short_eq_value", harness="k03_split_4byte_short_eq_value", tags=["C02"], quick=True, complete=False,
+         bound="`-🦀=v` (4-byte name, lead byte 0xF0), v any single byte"),
     dict(unit="K03.split_nonascii_long_eq_value", harness="k03_split_nonascii_long_eq_value", tags=["C02"], quick=True, complete=False,
          bound="`--ñ=v`, v any single byte"),
     dict(unit="K03.split_short_attached_value_with_eq", harness="k03_split_short_attached_value_with_eq", tags=["C02"], quick=False, complete=False,
@@ -134,6 +136,9 @@ def _run_one(repo, u, target, work, timeout_s):
             r.update(status="undecided", why="unwinding bound too small: " + fc[0])
         elif re.search(r"out of memory|std::bad_alloc|Killed", out) and not real:
             r.update(status="undecided", why="out of memory")
+        elif not real:
+            # FAILED without a single failed check: CBMC gave up (memory / internal limit); never a refutation
+            r.update(status="undecided", why="verification did not complete and reported no failed check: " + "; ".join(re.findall(r"CBMC[^\n]*", out))[:200])
         else:
             r.update(status="fail", failed_check=_slug(real[0]) if real else "assertion", output_tail=out[-3000:])
             # concrete playback (second pass)
